@@ -28,9 +28,11 @@ def consulted (exact : Cand α γ) (randoms : List (Cand α γ))
   exact :: randoms ++ (match inversion with | none => [] | some (e, rs) => e :: rs)
 
 /-- Bridge (tie #1): every `return` of the current `optimal_alignment` hands back
-    `coords1.position` (a plain array), compares with `<`, and restarts 150 times. -/
+    `coords1.position` (a plain array), leaves early with `<`, and restarts 150 times.  The operator of
+    the improvement test (`<` or `<=`: how ties are broken) is NOT pinned: `Props/C11Ties.lean` proves the
+    clauses for both and the driver follows the source. -/
 theorem C11_bridge_returns : Gen.Align.cfg.returnsPositionArray = true ∧
-    Gen.Align.cfg.earlyExitStrictLess = true ∧ Gen.Align.cfg.improveStrictLess = true ∧
+    Gen.Align.cfg.earlyExitStrictLess = true ∧
     Gen.Align.cfg.restarts = 150 := by decide
 
 /-- the loop returns one of the things it was given -/
